@@ -155,3 +155,14 @@ loop('System.find_assets', 1, 'for a in self._assets',
       'local_list': 'alive(rtn) and rtn is not self._assets'},
      modifies=['rtn[]'], index='k')
 
+
+# --------------------------------------------------------------------------- net value of the system (C16)
+# `sum(x.value for x in self._assets if isinstance(x, Asset))`: the filtered sum is the engine's finite sum with 0 for skipped
+# elements; every registered object is an Asset (field type of the registry), so nothing is skipped and the result is the
+# plain sum of the registered assets' values, each through its own `value` property (a batch: the sum of its parts).
+contract('System.get_net_value_of_assets', props=['C16'], args={}, result='real',
+         ensures={'sum_of_the_values_of_all_registered_assets': 'result == old(sum(asset_value(a) for a in self._assets))',
+                  'a_non_asset_in_the_registry_would_count_zero':
+                      'result == old(sum(asset_value(a) for a in self._assets if isinstance(a, Asset)))',
+                  'registry_untouched': 'seq(self._assets) == old(seq(self._assets))'},
+         modifies=[])
